@@ -580,7 +580,7 @@ class cpu_limit:
         def on_alarm(signum, frame):
             raise Hang()
         self.old = signal.signal(signal.SIGVTALRM, on_alarm)
-        signal.setitimer(signal.ITIMER_VIRTUAL, CPU_LIMIT)
+        signal.setitimer(signal.ITIMER_VIRTUAL, CPU_LIMIT, 1.0)
 
     def __exit__(self, *exc):
         signal.setitimer(signal.ITIMER_VIRTUAL, 0)
